@@ -12,11 +12,11 @@ import time
 from dataclasses import dataclass, field
 from pathlib import Path
 
-from common import SPEC, WORKERS
+from common import GEN, SPEC, WORKERS
 
 JAR = "/opt/veriftools/tla/tla2tools.jar"
 DEPS = "/opt/veriftools/tla/CommunityModules-deps.jar"
-LIBPATH = os.pathsep.join(str(p) for p in (SPEC, SPEC / "gen", SPEC / "mc", SPEC / "trace"))
+LIBPATH = os.pathsep.join(str(p) for p in (SPEC, GEN, SPEC / "mc", SPEC / "trace"))
 
 
 class TLCFailure(RuntimeError):
